@@ -60,6 +60,15 @@ ENGINES_EXTRA = [
   'kind_free_text': 'Gallina model of EDIF identifier assignment (make_valid and the per-scope sequential assignment); differential run; end-to-end compose/parse oracle'},
 ]
 
+CHECKS.update({
+ 'C15': dict(engine='policy', note='Trusted: Coq 8.16.1 kernel; the model Fmt/Policy.v covers ONLY the policy save/restore wrapper of the three readers (bodies are arbitrary computations in the theorems). Termination of the real recursive-descent loops and "nothing half-built is handed back" are runtime residue: checked on the implementation by harness/policy_check.py (all single truncations/deletions/duplications and dangling references of small files of the three formats + random corruptions of bundled examples, SIGALRM timeout, well-formedness checks), not proved. All theorems: Closed under the global context.',
+   technique='Coq proof (policy restored by the parse wrappers for any body and outcome, any session) + corruption stream on the real readers with timeout, policy and well-formedness oracles',
+   text='proof (partial, by nature): the naming policy after a parse call equals the policy before it for every reader body, input and outcome, hence after any session of parses; an EDIF/Verilog parse behaves independently of the policy earlier calls left (Props/C15.v). The remaining clauses (every reader terminates, returns a well-formed netlist or raises, undeclared EDIF references are rejected, a probe script behaves as in a fresh process) are decided on the implementation by exhaustive single-token corruption of small files and random corruption of bundled examples; the model\'s answer "policy restored" is compared with namespace_manager.default after every call.',
+   design='DESIGN.md 5/C15, 10'),
+})
+ENGINES_EXTRA.append({'name': 'policy', 'path': 'coq/theories/Fmt/Policy.v + harness/policy_check.py', 'serves_properties': ['C15'],
+  'kind_free_text': 'model of the readers\' policy save/restore wrapper; corruption stream against the three real readers'})
+
 ENGINES = [
  {'name': 'ir', 'path': 'coq/theories/IR + ocaml/driver_ir.ml + harness/ir_*.py', 'serves_properties': ['C01', 'C02', 'C10', 'C14', 'C19'],
   'kind_free_text': 'Gallina model of all public IR mutators and of the namespace manager, extracted to OCaml; differential run against the real spydrnet with canonical dumps after every call'},
